@@ -7,6 +7,11 @@ use std::time::Instant;
 
 pub const VERIF_DIR: &str = "/verif";
 
+/// Where replays and evidence are written (`VERIF_OUT_DIR` overrides /verif; used by the parallel regression driver).
+fn out_dir() -> PathBuf {
+    PathBuf::from(std::env::var("VERIF_OUT_DIR").unwrap_or_else(|_| VERIF_DIR.to_string()))
+}
+
 #[derive(Clone, Debug)]
 pub struct Violation {
     /// self-contained, replayable description of the failing case (`kind` selects the replayer)
@@ -153,7 +158,7 @@ pub fn finish(mut rep: Report, replayer: &dyn Fn(&Value) -> Option<String>) -> i
         );
     }
     // replays for unlisted violations (smallest first, capped)
-    let dir = PathBuf::from(VERIF_DIR).join("replays").join(&rep.property);
+    let dir = out_dir().join("replays").join(&rep.property);
     let _ = std::fs::remove_dir_all(&dir);
     let mut printed = 0;
     if !unlisted.is_empty() {
@@ -206,7 +211,7 @@ pub fn finish(mut rep: Report, replayer: &dyn Fn(&Value) -> Option<String>) -> i
         "wall_s": wall,
         "violations": unlisted.len(),
     });
-    let evdir = PathBuf::from(VERIF_DIR).join("evidence");
+    let evdir = out_dir().join("evidence");
     std::fs::create_dir_all(&evdir).expect("cannot create evidence dir");
     std::fs::write(evdir.join(format!("{}.json", rep.property)), serde_json::to_string_pretty(&ev).unwrap())
         .expect("cannot write evidence");
